@@ -30,8 +30,10 @@ def run(args, junit):
 base = set(json.load(open("/root/.vp/BASELINE.json"))["stable_pass"])
 passed, failed = run(["-n", n, "tests"], out)
 missing = sorted(base - passed)
-if missing:
-    # re-run the missing ones alone (load-induced hypothesis deadlines)
+for attempt in range(3):
+    if not missing:
+        break
+    # re-run the missing ones alone (load-induced hypothesis deadlines / 5-second mailbox timeouts)
     ids = []
     for m in missing:
         cls, name = m.split("::")
@@ -41,7 +43,7 @@ if missing:
     p2, f2 = run(ids, out + ".rerun")
     passed |= p2
     failed.update(f2)
-missing = sorted(base - passed)
+    missing = sorted(base - passed)
 print(f"baseline {len(base)}  passed-now {len(passed & base)}  baseline-tests-not-passing {len(missing)}")
 for m in missing:
     print("  MISSING", m, "|", failed.get(m, ""))
